@@ -7,6 +7,7 @@ import (
 	"encoding/json"
 	"fmt"
 	"math/big"
+	"os"
 	"testing"
 
 	"github.com/google/wuffs/lib/interval"
@@ -889,10 +890,10 @@ func TestProp(t *testing.T) {
 }
 
 // TestGiantShifts covers shift counts above 2^32 (the big.Exp fallback): only
-// in the thorough tier, three fixed cases, because each allocates ~0.5 GiB.
+// on request (VERIF_C06_GIANT=1), three fixed cases: each allocates ~0.5 GiB and runs for many minutes.
 func TestGiantShifts(t *testing.T) {
-	if !ev.Thorough() {
-		t.Skip("thorough only")
+	if os.Getenv("VERIF_C06_GIANT") == "" {
+		t.Skip("only with VERIF_C06_GIANT=1: each case computes 2^(2^32)")
 	}
 	huge := new(big.Int).Lsh(one, 32)
 	huge.Add(huge, big.NewInt(3))
